@@ -190,6 +190,14 @@ def r09_6(ctx):
             if ret == "!":
                 continue
             t = _tuple2(ret)
+            if ret == "()" and c["actions"] and c["actions"][-1][0] == "loop-end" and str(c["actions"][-1][1][0]) == "end":
+                # the iteration goes round: what it leaves in the loop-carried locals; the index is the one advanced by a whole block,
+                # the tally the other one that is 'previous + something'
+                inc = [str(x) for x in c["actions"][-1][1][1:] if re.fullmatch(r"\(φ\(0\) \+ (.*)\)", str(x))]
+                idx = [x for x in inc if x == "(φ(0) + 16)"]
+                rest = [x for x in inc if x != "(φ(0) + 16)"]
+                if len(idx) == 1 and len(rest) <= 1:
+                    t = ["loop(%s)" % idx[0], "loop(%s)" % rest[0] if rest else "loop(φ(0))"]
             if len(t) != 2:
                 ctx.ob("R09.6", "simd-newline-accounting/%s/result-shape" % name, False, "result is not (bytes scanned, newlines found): " + ret[:120])
                 continue
